@@ -324,7 +324,21 @@ def report(pid, tier, seed, results, lemma_res, extra_results, checker_errors, t
         all_obs.append(dict(ob))
     per_fn_count = {}
     dead_paths = {}
+    bounded = []
     for ob in all_obs:
+        if ob.get("kind") == "bounded":
+            # bounded stand-ins are reported separately and never counted among the discharged obligations
+            bounded.append({k: ob.get(k) for k in ("function", "name", "status", "seconds", "note")})
+            per_fn_count[ob.get("function")] = per_fn_count.get(ob.get("function"), 0) + 1
+            if ob["status"] == "refuted":
+                hit = [f for f in known if finding_matches(f, pid, ob.get("function"), ob)]
+                if hit:
+                    known_hit.append((hit[0], ob))
+                else:
+                    violations.append(ob)
+            elif ob["status"] != "proved":
+                undecided.append(ob)
+            continue
         obligations += 1
         per_fn_count[ob.get("function")] = per_fn_count.get(ob.get("function"), 0) + 1
         solver_s += ob.get("seconds", 0)
@@ -405,6 +419,7 @@ def report(pid, tier, seed, results, lemma_res, extra_results, checker_errors, t
             solver_seconds=round(solver_s, 2),
             known_findings_reported=[f.get("what") for f, _ in known_hit],
             dead_paths=dead_paths,
+            bounded_stand_ins=bounded,
             undecided=[dict(function=u.get("function"), name=u["name"], status=u["status"]) for u in undecided],
             refuted=[dict(function=o.get("function"), name=o["name"], replay_verdict=(o.get("replay") or {}).get("verdict")) for o in violations],
             explanation="every obligation generated from the current source of the functions under contract, one SMT query each (plus lemma side proofs)",
